@@ -527,7 +527,7 @@ def parse_mismatches(out):
 
 
 def run(ck):
-    n = 200 if not ck.thorough else 3000
+    n = 300 if not ck.thorough else 3000
     big = 70000 if not ck.thorough else 200 * 1024
     ck.gen()
     built = ck.coq_make(MODEL + PROOFS, clean=ck.thorough)
